@@ -52,7 +52,8 @@ def gen_traj_data(seed, n, profile):
     quat = np.zeros((n, 4))
     ts = np.zeros(n)
     p = np.array([rng.gauss(0, scale) for _ in range(3)])
-    modes = ["uniform", "small", "pi", "planar", "any"]
+    modes = ["uniform", "small", "pi", "planar", "any", "half_turn",
+             "quarter", "identity"]
     q = random_unit_quat(rng, rotmode if rotmode != "mixed" else
                          rng.choice(modes))
     t = t0 + rng.random()
